@@ -20,19 +20,19 @@ func (Engine) Plan(prop, tier string) kernel.Plan {
 	case "C16":
 		// a random run is one stream under ~180 schedules; an enumerating run is
 		// a short stream under every single split with both serializers
-		p.Exhaustive, p.Runs = 2*len(gen.MsgTypes), 2*len(gen.MsgTypes)+400
+		p.Exhaustive, p.Runs = 2*len(gen.MsgTypes), 2*len(gen.MsgTypes)+800
 		if thorough {
 			p.Exhaustive, p.Runs = 40*len(gen.MsgTypes), 40*len(gen.MsgTypes)+24000
 		}
 		p.ExhaustiveNote = fmt.Sprintf("streams of 1-3 envelopes of at most %d bytes (every message type first in turn): every single split position of the stream, plus one-byte reads and per-write delivery, with both serializers", enumMaxBytes)
 	case "C14":
-		p.Runs = 6000 // ~7 values per run, envelopes decoded with both serializers
+		p.Runs = 12000 // ~7 values per run, envelopes decoded with both serializers
 		if thorough {
 			p.Runs = 1400000
 		}
 	case "C13":
 		p.CrashProne = true
-		p.Runs = 4 * len(c13Families()) // ~1500 faulty decodes per run
+		p.Runs = 8 * len(c13Families()) // ~1400 faulty decodes per run
 		if thorough {
 			p.Runs = 12500
 		}
@@ -69,7 +69,7 @@ func (Engine) Describe(prop string) kernel.Describe {
 		d.Assumptions = []string{"no chunking in this check (reads return what they ask for; C16 varies delivery)", "only backend 0 (sim) is registered, as in every build of this repository, so address maps have 0 or 1 entries",
 			"envelopes fit the protobuf frame (64 KiB) and texts are valid UTF-8, as the protobuf encoder requires", "a ChannelSync transaction always has a state (a nil state cannot be converted by the protobuf encoder)"}
 	case "C13":
-		d.Rule = "one run = a batch of ~2500 faulty decodes of one family (17 envelope types, 11 value kinds, in turn): 3-5 well-formed base values, every truncation offset of the first one with every decoder (enumerated up to 2 KiB, 256 sampled beyond), and ~600 explicit faults. Decoders: ioConn.Recv with the native and with the protobuf serializer, wire.DecodeMsg, and Decode of State, Allocation, Balances, SubAlloc, Params, Transaction, wallet/wire address maps and arrays, primitives. Each decode runs under recover in the calling goroutine: a panic is a violation named by the innermost go-perun frame; a successful decode must respect MaxNumAssets, MaxNumParts, MaxNumSubAllocations and MaxBigIntLength; a worker killed by the runtime's out-of-memory error under the address-space limit is a violation found by the coordinator. Evaluations = decodes; non-trivial run = some mutant decoded and some was rejected. Structure-aware mutations (length fields from the encoder's write boundaries, protobuf messages rebuilt through the generated types) are input generation. " + shapes
+		d.Rule = "one run = a batch of ~1400 faulty decodes of one family (17 envelope types, 11 value kinds, in turn): 3-5 well-formed base values, every truncation offset of the first one with every decoder (enumerated up to 2 KiB, 256 sampled beyond), and ~600 explicit faults. Decoders: ioConn.Recv with the native and with the protobuf serializer, wire.DecodeMsg, and Decode of State, Allocation, Balances, SubAlloc, Params, Transaction, wallet/wire address maps and arrays, primitives. Each decode runs under recover in the calling goroutine: a panic is a violation named by the innermost go-perun frame; a successful decode must respect MaxNumAssets, MaxNumParts, MaxNumSubAllocations and MaxBigIntLength; a worker killed by the runtime's out-of-memory error under the address-space limit is a violation found by the coordinator. Evaluations = decodes; non-trivial run = some mutant decoded and some was rejected. Structure-aware mutations (length fields from the encoder's write boundaries, protobuf messages rebuilt through the generated types) are input generation. " + shapes
 		d.FaultKinds = []string{"trunc / trunc-enum (stream ends after k bytes)", "flip (1-3 bits)", "len (a 1/2/4-byte length, count, backend-id, type or flag field overwritten with -1, 0, limit, limit+1, 2^15, 2^16-1, 2^31-1; little- and big-endian)",
 			"splice (head of one message, tail of another)", "rand (random bytes)", "randtail (valid prefix, random rest)", "cross (bytes of one serializer fed to the other)",
 			"pb (protobuf message rebuilt with a repeated field shortened, duplicated, emptied or grown to 1025, a sub-message removed or emptied, a bytes field emptied / resized / set to a 4-byte backend id, a scalar set to a boundary value)"}
